@@ -144,6 +144,17 @@ def check(run):
         one_case(run, specs, np.array(pts), q, tuple("T=%g" % T for T in ts))
         run.count("boys ladder case")
         k += 1
+    from checks.common import sp_family, structured_transforms
+    for k, ls in enumerate([(0, 1), (0, 2), (1, 2)]):
+        specs = sp_family(rng, ls, two_centres=True)
+        pts, q, kinds = place_charges(rng, specs, 2)
+        one_case(run, specs if k % 2 else list(reversed(specs)), pts, q, kinds)
+        run.count("SP-type shared exponent arrays")
+    specs = random_basis(rng, 2, 2, lmax=2)
+    pts, q, kinds = place_charges(rng, specs, 2)
+    for lab, T in structured_transforms(rng, sum(s_.size for s_ in specs)):
+        one_case(run, specs, pts, q, kinds, T)
+        run.count("transform " + lab)
     # nearly coincident centres (and a charge nearly on a centre)
     from checks.common import near_cases, near_pair
     for la, lb, sep, far in near_cases(run, 3)[:: (3 if quick else 1)]:
